@@ -79,6 +79,8 @@ def c16_load_oracle(case, trace):
         if t == "LOADRENDER" and r.split()[-1] in ("FAILED", "PANIC"):
             yield "the error of load_test(%s) cannot be rendered as a diagnostic (a location outside the attached source?): %s" % (r.split()[0], r)
     for t, r in trace:
+        if t == "LOADSRC" and r.split()[-1] in ("DIFFERENT", "PANIC"):
+            yield "the error of load_test(%s) does not carry the source text of that test: %s" % (r.split()[0], r)
         if t == "ENTRY" and not r.startswith("same"):
             yield "File::parse, the FromStr impl and File::open (on a file with the same text) disagree: %s" % r[:300]
     oob = [r for t, r in trace if t == "LOADOOB"]
